@@ -155,11 +155,24 @@ def accept (icount : Int) (cancelAt : Option Nat) (gets : List GetRes) (outs : L
   | .error (e, g) =>
     -- sequential early return: Cleanup once, then the error; nothing else (the harness' own `x` aside)
     let tr := trace.filter (· != .cancel)
-    let want := (earlyTrace e).map fun ev => match ev with
+    let wantOf (e : Early) : List Tok := (earlyTrace e).map fun ev => match ev with
       | .cleanup => Tok.cleanup
       | .ret e => Tok.ret (earlyName e)
-    if tr != want then "model=" ++ ",".intercalate (want.map showTok)
-    else if toString g != ngets then s!"model-gets={g}" else "-"
+    -- The harness' cancel (`x`) runs concurrently with the call. When it is observed BEFORE the early
+    -- return, the context may already have ended when the prefix made its last context check: the run
+    -- in which the context ended before the call (cancelAt = 0) is then an equally valid run of the model.
+    let alt : Option (Early × Nat) :=
+      if trace.head? == some Tok.cancel then
+        match prepare icount (some 0) gets with
+        | .error x => some x
+        | .ok _ => none
+      else none
+    if tr == wantOf e then (if toString g != ngets then s!"model-gets={g}" else "-")
+    else match alt with
+      | some (e', g') =>
+        if tr == wantOf e' then (if toString g' != ngets then s!"model-gets={g'}" else "-")
+        else "model=" ++ ",".intercalate ((wantOf e).map showTok)
+      | none => "model=" ++ ",".intercalate ((wantOf e).map showTok)
   | .ok p =>
     if toString p.gets != ngets then s!"model-gets={p.gets}" else
     acceptFrom (Std.HashSet.emptyWithCapacity.insert (initSt p (outFn outs))) 0 trace
